@@ -12,6 +12,16 @@ NOTE = ("Trusted: TLC and the CommunityModules JSON reader; the projection of ne
         "evidence file on every run.")
 
 CLAIMED = {
+    "C07": ("CGApi models the construction API as a state machine (one operator per call, composed at the code's failure points). "
+            "MCApi: every history of depth 4 from the empty circuit over a small universe, MCApiStep: one rich call from every "
+            "legal circuit over the universe (inductive step) - TypeOK, LegalWiring, BBConsistent, RejectedAddsNoEdge hold (TLC "
+            "found two real counterexample histories, since repaired). Conformance both ways: TLC-simulated behaviours and EVERY "
+            "transition of the connect-focused config are replayed on a real Circuit and compared; seeded random histories are "
+            "judged step by step by TLC (JudgeApi).", "6 C07"),
+    "C20": ("CGLint states lint's rules one by one; the outcome of cg.lint under all 16 flag combinations on TLC-enumerated "
+            "two-node graphs (all types incl. missing/unsupported, all edges, registry), random ill-formed and well-formed graphs "
+            "is judged by TLC (raises ValueError iff a rule is violated); outputs of generators, composition calls and transforms "
+            "are judged lint-clean by the spec and by cg.lint.", "6 C20"),
     "C08": ("MCCount: the as-built enumeration loop of model_count (any model, block on startpoints) counts every startpoint "
             "projection exactly once for every solver choice order; every recorded model_count / signal_probability result "
             "and every DIMACS file captured from approx_model_count is judged by TLC against Count(c, A) computed from "
